@@ -21,7 +21,7 @@ DRIVER_EXE = "drv_reg"
 RULE = ("registration histories on a private UnitDatabase(): bounded-exhaustive over a fixed alphabet of 29 calls "
         "(AddUnitBase/AddUnit/AddCategory over 3 quantity types x 5 symbols x 4 categories incl. duplicates, a second "
         "base, foreign symbols, legacy spellings, override, from_category with partial overrides, limits, every "
-        "rejected-argument class) to depth 3 (quick) / 4 (thorough, last call from a 15-call sub-alphabet), random "
+        "rejected-argument class) to depth 3 (quick) / 4 (thorough, last call from an 8-call sub-alphabet), random "
         "histories to depth 40 with arbitrary argument combinations; after the history the complete registry and ~45 "
         "getter/construction queries are compared; distinct = distinct history; non-trivial = at least one accepted "
         "and (depth>1) one rejected or overriding call")
@@ -83,7 +83,7 @@ ALPHABET = [
     _cat("depth", "length", min_value=5.0),
 ]
 # last call of the depth-4 histories of the thorough tier
-SUB = [0, 2, 4, 6, 10, 11, 12, 13, 14, 15, 16, 19, 25, 27, 28]
+SUB = [0, 4, 6, 11, 12, 14, 15, 28]
 
 
 def _queries(types=TYPES, syms=SYMS, cats=CATS):
